@@ -481,7 +481,7 @@ func emitCallOrders(p *pkgInfo) string {
 		fmt.Fprintf(&b, "def conds_%s : List String := %s\n", fn, leanList(condTexts(p, p.funcs["shrinker."+fn])))
 	}
 	// the loop bodies that the generators put around repeat.more / repeat.reject: every statement, as gofmt prints it
-	for _, fn := range []string{"sliceGen.value", "mapGen.value", "stringGen.value", "T.Repeat", "stateMachine.executeAction", "runAction", "checkTB", "shrinker.accept", "shrink", "checkOnce", "runProp", "T.failOnError", "T.fail", "customGen.maybeValue", "captureTestOutput", "panicToError", "traceback", "sameError"} {
+	for _, fn := range []string{"sliceGen.value", "mapGen.value", "stringGen.value", "T.Repeat", "stateMachine.executeAction", "runAction", "checkTB", "shrinker.accept", "shrink", "checkOnce", "runProp", "T.failOnError", "T.fail", "customGen.maybeValue", "captureTestOutput", "panicToError", "traceback", "sameError", "newMakeKindGen", "genAnyPointer", "genAnyArray", "genAnySlice", "genAnyMap", "genAnyStruct", "castGen.value", "permGen.value", "ptrGen.value", "Generator.Draw", "Generator.value"} {
 		fmt.Fprintf(&b, "def body_%s : List String := %s\n", strings.ReplaceAll(fn, ".", "_"), leanList(bodyLines(p, p.funcs[fn])))
 	}
 	fmt.Fprintf(&b, "def conds_minimize : List String := %s\n", leanList(condTexts(p, p.funcs["minimize"])))
